@@ -27,7 +27,7 @@ ASSUMPTIONS = [
     "reference B6 (DESIGN.md Appendix B6): flags, delegation index and bounds as functions of content",
     "flags and the delegation index are read from the committed version object (version.nodes[*].flags, version.delegations)",
 ]
-REQUIRED = ["mon.flags_from_content", "mon.delegation_index", "mon.iteration_order", "mon.bounds_query", "mon.histories_with_nested_cuts", "mon.histories_with_cname_at_cut"]
+REQUIRED = ["mon.replacement_transactions", "mon.flags_from_content", "mon.delegation_index", "mon.iteration_order", "mon.bounds_query", "mon.histories_with_nested_cuts", "mon.histories_with_cname_at_cut"]
 BUDGET = {"quick": 40.0, "thorough": 420.0}
 
 ORIGIN = (b"example", b"")
@@ -51,12 +51,17 @@ class RefZone:
 
     def add(self, name, rdtype):
         # CNAME/other-data rule of nodes
+        # (dns.node: CNAME and RRSIG(CNAME) are "CNAME-like"; NSEC, NSEC3, KEY and their RRSIGs are neutral; everything else,
+        # RRSIG(A) included, is regular.  Adding one kind evicts the other.)  RRSIG sets are keyed (46, covered type).
         s = self.c.setdefault(name, set())
-        if rdtype == 5:
-            for t in [t for t in s if t not in (47, 50, 25, 46)]:
+        neutral = (47, 50, 25, (46, 47), (46, 50), (46, 25))
+        cname_like = (5, (46, 5))
+        if rdtype in cname_like:
+            for t in [t for t in s if t not in neutral and t not in cname_like]:
                 s.discard(t)
-        elif rdtype not in (47, 50, 25, 46):
-            s.discard(5)
+        elif rdtype not in neutral:
+            for t in cname_like:
+                s.discard(t)
         s.add(rdtype)
 
     def delete(self, name, rdtype=None):
@@ -106,6 +111,8 @@ class RefZone:
 
 
 def rd_for(rdtype, tag):
+    if isinstance(rdtype, tuple):
+        return dns.rdata.from_text("IN", "RRSIG", f"{dns.rdatatype.to_text(rdtype[1])} 8 2 300 20300101000000 20200101000000 {tag % 60000} example. q83v")
     t = dns.rdatatype.to_text(rdtype)
     text = {"A": f"10.0.0.{tag % 250 + 1}", "NS": f"ns{tag % 5}.elsewhere.", "TXT": f'"t{tag}"', "CNAME": f"target{tag % 3}.elsewhere.", "MX": f"{tag % 50} mx.elsewhere.",
             "DS": f"{tag % 60000} 8 2 " + "ab" * 32, "AAAA": f"2001:db8::{tag % 999 + 1:x}"}[t]
@@ -122,7 +129,7 @@ def check_version(ctx, z, ref, relativize, case, tag, rng, step_kind):
         got_flags = {}
         for name, node in v.nodes.items():
             k = fold(name.derelativize(origin).labels)
-            got_content[k] = {int(r.rdtype) for r in node.rdatasets}
+            got_content[k] = {int(r.rdtype) if int(r.rdtype) != 46 else (46, int(r.covers)) for r in node.rdatasets}
             got_flags[k] = int(node.flags)
         if got_content != {k: set(s) for k, s in ref.c.items()}:
             ctx.violation(f"zone-content-differs-from-reference:{tag}", f"after {step_kind}", case)
@@ -264,13 +271,37 @@ def history(ctx, rng):
         ln = dns.name.Name(n)
         if relativize:
             ln = ln.relativize(origin)
-        kind = rng.choice(("add_ns", "add_ns", "del_ns", "del_ns", "add_other", "add_other", "del_other", "del_node", "replace_ns", "cname", "add_below"))
-        if n == ORIGIN and kind in ("del_node", "cname", "del_ns"):
+        kind = rng.choice(("add_ns", "add_ns", "del_ns", "del_ns", "add_other", "add_other", "del_other", "del_node", "replace_ns", "cname", "add_below", "rrsig", "reload"))
+        if n == ORIGIN and kind in ("del_node", "cname", "del_ns", "rrsig"):
             kind = "add_other"
         tagn += 1
         try:
+            if kind == "reload":
+                # a replacement transaction (what an AXFR does): nothing of the old version, its delegation index included, survives
+                ctx.count("mon.replacement_transactions")
+                ref = RefZone()
+                with z.writer(True) as txn:
+                    new = [(ORIGIN, 6), (ORIGIN, 2)] + [(rng.choice(pool), rng.choice((1, 2, 2, 16, 28))) for _ in range(rng.randint(1, 6))]
+                    rng.shuffle(new)
+                    for nn, tt in new:
+                        tagn += 1
+                        lnn = dns.name.Name(nn).relativize(origin) if relativize else dns.name.Name(nn)
+                        if tt == 6:
+                            txn.add(lnn, 300, dns.rdata.from_text("IN", "SOA", "ns.example. h.example. 1 2 3 4 5"))
+                        else:
+                            txn.add(lnn, 300, rd_for(tt, tagn))
+                        ref.add(fold(nn), tt)
             with z.writer() as txn:
-                if kind == "add_ns":
+                if kind == "reload":
+                    pass
+                elif kind == "rrsig":
+                    # RRSIG(CNAME) counts as a CNAME for the other-data rule and evicts an NS at a cut; RRSIG(A) is ordinary data
+                    cov = rng.choice((5, 5, 1))
+                    if cov == 5 and 2 in ref.c.get(fold(n), ()):
+                        cname_seen = True
+                    txn.add(ln, 300, rd_for((46, cov), tagn))
+                    ref.add(fold(n), (46, cov))
+                elif kind == "add_ns":
                     txn.add(ln, 300, rd_for(2, tagn))
                     ref.add(fold(n), 2)
                 elif kind == "replace_ns":
